@@ -42,7 +42,7 @@ def run(ctx):
     phase_fns = [prog.fn(n) for n in PHASES]
 
     # ---- R15.2 ------------------------------------------------------------------
-    ex = absint.Explorer(prog, effects=eff, inline=lambda n, d: False, loop_bound=2,
+    ex = absint.Explorer(prog, effects=eff, auto_inline=False, loop_bound=2,
                          on_unknown_call=lambda cal, args, f, e: [INT(0)] if cal in PHASES or cal in
                          ("report_libovni_version", "load_clock_offsets", "init_offsets") else None)
     outs = [o for o in ex.run(si, [PTR("SYS"), PTR("ARGS"), PTR("TRACE")], {}) if o.kind == "ret" and o.ret == INT(0)]
